@@ -21,7 +21,8 @@ def make_cases(tier, rng):
                     # a plugin that dies during startup: once with the calls issued at once (they may race with
                     # the crash), once after the crash has completed (they are after it for sure)
                     for settle in ([False, True] if pt in ("before_output", "mid_line", "after_line") else [False]):
-                        cases.append({"name": "cr%d" % len(cases), "point": pt, "proto": pr, "how": how, "jitter_ms": rng.randint(0, 90), "settle": settle})
+                        cases.append({"name": "cr%d" % len(cases), "point": pt, "proto": pr, "how": how, "jitter_ms": rng.randint(0, 90), "settle": settle,
+                                      "line_variant": len(cases)})
     return cases
 
 
